@@ -33,6 +33,10 @@ def run(chk):
     from . import c20
     c20.strict_error_roundtrip(chk, "C02")
     from . import executor_contracts as X
+    from . import state_contracts as _S
+    _S.create_checkpoint(chk, "C02", want=("C10",))    # a straggler's late SUCCEED under a completed batch is refused: the replayed batch equals the one first delivered
+    _S.mark_orphans(chk, "C02")
+    _S.merge_all_pages(chk, "C02")
     X.batch_replay_consistency(chk, "C02")
     X.item_in_child_context(chk, "C02")   # a branch resumed inside the invocation re-runs on a FRESH context: its completed steps are found under the same ids and replayed, not run again with new values
     X.replay_items(chk, "C02")   # the batch rebuilt from records is classified with the SAME completion config as the first run
@@ -42,6 +46,7 @@ def run(chk):
     from . import c15
     c15.containers(chk, only=("list", "dict.str_keys"), prefix="C02")
     c15.serialized_text_is_ascii(chk, "C02", want=("flags",))   # dictionaries come back in the order they were delivered in: no json flag reorders or rewrites them
+    c15.nested_leaves(chk, c15.LEAVES, prefix="C02")   # base case: a primitive inside a container comes back as the same value of the same type (a replayed inf is a float, not the text 'inf')
     c15.containers(chk, only=("batch_result",), prefix="C02")   # a replayed map / parallel result equals the first one item by item (falsy results included)   # RT for containers incl. ownership: what a replay delivers is a fresh value, not an object another delivery can have mutated
     from . import lockset
     lockset.lock_discipline(chk, "C02", ["operations"])   # a re-invocation (REPLAY status) must not raise what the first run cannot: track_replay iterates the map the checkpoint thread updates
